@@ -76,6 +76,7 @@ func (e *Eng) buildPrelude() string {
 		fmt.Fprintf(&b, "(assert (forall ((x %s)) (! (= (unbox_%s (box_%s x)) x) :pattern ((box_%s x)))))\n", s, s, s, s)
 	}
 	b.WriteString(e.reg.declHeap())
+	b.WriteString(e.reg.declDeref())
 	b.WriteString(e.reg.declTids())
 	// comparable facts and pointer tids
 	var ptrTids []string
